@@ -93,6 +93,19 @@ def T(x):
     return x if isinstance(x, Term) else Term.const(x)
 
 
+def elem_term(seq_key, i):
+    """term of element i of a sequence-valued term: divmod(a, b)[0] is a // b, [1] is a % b; tuple(x, y)[i] is the element"""
+    if seq_key.startswith("divmod(") and seq_key.endswith(")"):
+        parts = _split_top(seq_key[len("divmod("):-1], ",")
+        if len(parts) == 2 and i in (0, 1):
+            return Term({(("floordiv(" if i == 0 else "mod(") + parts[0] + "," + parts[1] + ")",): Fraction(1)})
+    if seq_key.startswith("tuple(") and seq_key.endswith(")"):
+        parts = _split_top(seq_key[len("tuple("):-1], ",")
+        if 0 <= i < len(parts):
+            return parse_key(parts[i])
+    return Term.atom(f"sub({seq_key},{i})")
+
+
 SIGS = {}  # callable name -> positional parameter names (set per analysed program by report.Ctx)
 
 
@@ -400,6 +413,8 @@ class Evaluator:
                 # construct contexts are attribute dictionaries: ctx["name"] is ctx.name
                 return Term.atom(bk + "." + node.slice.value)
             idx = self.ev(node.slice)
+            if idx.is_const() and idx.value().denominator == 1 and bk.startswith("divmod("):
+                return elem_term(bk, int(idx.value()))
             return Term.atom(f"sub({bk},{idx.key()})")
         if isinstance(node, ast.NamedExpr):
             v = self.ev(node.value)
@@ -431,6 +446,14 @@ class Evaluator:
             return Term.atom(f"dcomp({sub.ev(node.key).key()}:{sub.ev(node.value).key()} for _c0 in {self.ev(g.iter).key()})")
         if isinstance(node, (ast.Compare, ast.BoolOp)):
             return Term.atom("cond(" + self.cond(node) + ")")
+        if isinstance(node, (ast.ListComp, ast.GeneratorExp)) and len(node.generators) == 1 and node.generators[0].ifs \
+                and isinstance(node.generators[0].target, ast.Name):
+            # a filtered traversal: comp(E for _c0 in S if C)
+            g = node.generators[0]
+            sub = self.child(dict(self.env))
+            sub.env[g.target.id] = Term.atom("_c0")
+            conds = sorted(sub.cond(c) for c in g.ifs)
+            return Term.atom(f"comp({sub.ev(node.elt).key()} for _c0 in {self.ev(g.iter).key()} if {' and '.join(conds)})")
         if isinstance(node, (ast.ListComp, ast.GeneratorExp)) and len(node.generators) == 1 and not node.generators[0].ifs \
                 and isinstance(node.generators[0].target, ast.Name):
             g = node.generators[0]
@@ -443,7 +466,22 @@ class Evaluator:
             sub = self.child(dict(self.env))
             sub.env[var] = Term.atom("_c0")
             return Term.atom(f"comp({sub.ev(node.elt).key()} for _c0 in {self.ev(it).key()})")
-        return self.atom_of("opaque(" + " ".join(ast.unparse(node).split())[:80] + ")", node)
+        txt = " ".join(ast.unparse(node).split())
+        if len(txt) > 80:
+            import hashlib
+            txt = txt[:60] + "#" + hashlib.sha1(txt.encode()).hexdigest()[:10]
+        # keep the atom text bracket-balanced (keys are split on top-level commas)
+        depth_ok, d_ = True, 0
+        for ch in txt:
+            if ch in "([{":
+                d_ += 1
+            elif ch in ")]}":
+                d_ -= 1
+                if d_ < 0:
+                    depth_ok = False
+        if not depth_ok or d_ != 0:
+            txt = txt.replace("(", "<").replace(")", ">").replace("[", "<").replace("]", ">").replace("{", "<").replace("}", ">")
+        return self.atom_of("opaque(" + txt + ")", node)
 
     def _call(self, node):
         f = node.func
